@@ -149,9 +149,10 @@ func faultContNoRetry(m *core.Model, failed *core.Op) []core.Op {
 	if m.Last == 0 {
 		next = 1
 	}
+	// exactly one append: recovery verifies only the last commit of the tail, so a
+	// second append would hide a bad CRC in the first
 	return []core.Op{
 		{K: "A", Idx: next, Sizes: []int{12}, Gen: 60},
-		{K: "A", Idx: next + 1, Sizes: []int{4}, Gen: 61},
 		{K: "S", Key: "k2", Val: []byte("w")},
 	}
 }
